@@ -130,6 +130,11 @@ enum GOp {
     MapMutWithIndex(u64),
     Map(u64),
     MapWithIndex(u64),
+    /// the user code (closure / iterator `next`) of the wrapped operation panics on call `.1`
+    Panicking(Box<GOp>, usize),
+    /// every cell := b + 100 i + j (None) or := v (Some(v)); re-synchronises a case after a
+    /// panicking in-place map, whose partial effect is not part of the property
+    Resync(u64, Option<u64>),
 }
 
 /// The kinds of iterator the `_with` forms are driven with (`via=`); what matters is the
@@ -190,6 +195,9 @@ impl GOp {
             GOp::MapMutWithIndex(k) => format!("map_mut_with_index {}", k),
             GOp::Map(k) => format!("map {}", k),
             GOp::MapWithIndex(k) => format!("map_with_index {}", k),
+            GOp::Panicking(op, j) => format!("{} panic_at={}", op.line(), j),
+            GOp::Resync(b, None) => format!("renumber {}", b),
+            GOp::Resync(_, Some(v)) => format!("fill {}", v),
         }
     }
     fn name(&self) -> &'static str {
@@ -209,11 +217,31 @@ impl GOp {
             GOp::MapMutWithIndex(..) => "map_mut_with_index",
             GOp::Map(..) => "map",
             GOp::MapWithIndex(..) => "map_with_index",
+            GOp::Resync(..) => "resync",
+            GOp::Panicking(op, _) => match op.name() {
+                "map_mut" => "map_mut.panic_at",
+                "map_mut_with_index" => "map_mut_with_index.panic_at",
+                "map" => "map.panic_at",
+                "map_with_index" => "map_with_index.panic_at",
+                "insert_row_with" => "insert_row_with.panic_at",
+                _ => "insert_column_with.panic_at",
+            },
         }
     }
-    /// does the documented precondition hold at this size?
+    /// how often the operation calls its user code (closure / `next`) at this size
+    fn user_calls(&self, s: Size) -> usize {
+        let next_calls = |need: usize, len: usize| if need <= len { need } else { len + 1 };
+        match self {
+            GOp::MapMut(_) | GOp::MapMutWithIndex(_) | GOp::Map(_) | GOp::MapWithIndex(_) => s.r * s.c,
+            GOp::InsertRowWith(p, vs) if *p <= s.r => next_calls(s.c, vs.len()),
+            GOp::InsertColumnWith(p, vs) if *p <= s.c => next_calls(s.r, vs.len()),
+            _ => 0,
+        }
+    }
+    /// does the documented precondition hold at this size (and no user code panic occur)?
     fn valid(&self, s: Size) -> bool {
         match self {
+            GOp::Panicking(op, j) => *j >= op.user_calls(s) && op.valid(s),
             GOp::InsertRow(p, _) => *p <= s.r,
             GOp::InsertRowWith(p, vs) => *p <= s.r && vs.len() >= s.c,
             GOp::InsertColumn(p, _) => *p <= s.c,
@@ -222,7 +250,7 @@ impl GOp {
             GOp::RemoveColumn(p) => s.c > 1 && *p < s.c,
             GOp::Retain(_, r, c) => r.count(s.r) > 0 && c.count(s.c) > 0,
             GOp::Transpose | GOp::TransposeMut | GOp::MapMut(_) | GOp::MapMutWithIndex(_) => true,
-            GOp::Map(_) | GOp::MapWithIndex(_) => true,
+            GOp::Map(_) | GOp::MapWithIndex(_) | GOp::Resync(..) => true,
             GOp::Set(r, c, _, _) => *r < s.r && *c < s.c,
         }
     }
@@ -238,6 +266,7 @@ impl GOp {
             GOp::RemoveColumn(_) => Size { r: s.r, c: s.c - 1 },
             GOp::Retain(_, r, c) => Size { r: r.count(s.r), c: c.count(s.c) },
             GOp::Transpose | GOp::TransposeMut => Size { r: s.c, c: s.r },
+            GOp::Panicking(op, _) => op.after(s),
             _ => s,
         }
     }
@@ -274,6 +303,67 @@ fn fresh(counter: &mut u64, n: usize) -> Vec<u64> {
         .collect()
 }
 
+/// the read-only getters: every row and column index in `0..=len+1` (all = true) or a random one
+fn getter_lines(g: &mut Gen, s: Size, all: bool) {
+    let via = |k: usize| if k % 2 == 0 { "iter" } else { "reference_iter" };
+    if all {
+        for r in 0..=s.r + 1 {
+            g.op(format!("row_iter {} via={}", r, via(r)));
+            g.count(if r < s.r { "getter.row_iter.valid" } else { "getter.row_iter.invalid" });
+        }
+        for c in 0..=s.c + 1 {
+            g.op(format!("column_iter {} via={}", c, via(c + 1)));
+            g.count(if c < s.c { "getter.column_iter.valid" } else { "getter.column_iter.invalid" });
+        }
+        g.op("diagonal_iter via=iter".to_string());
+        g.op("diagonal_iter via=reference_iter".to_string());
+        g.count_n("getter.diagonal_iter", 2);
+    } else {
+        match g.rng.below(3) {
+            0 => {
+                let r = pick_index(g, s.r);
+                g.op(format!("row_iter {} via={}", r, via(r)));
+                g.count(if r < s.r { "getter.row_iter.valid" } else { "getter.row_iter.invalid" });
+            }
+            1 => {
+                let c = pick_index(g, s.c);
+                g.op(format!("column_iter {} via={}", c, via(c)));
+                g.count(if c < s.c { "getter.column_iter.valid" } else { "getter.column_iter.invalid" });
+            }
+            _ => {
+                g.op(format!("diagonal_iter via={}", via(s.r + s.c)));
+                g.count("getter.diagonal_iter");
+            }
+        }
+    }
+}
+
+/// `==` between the matrix and the result of an operation on a clone: operations that must give
+/// an equal matrix (no-ops), ones that cannot (size changes), and ones that do only on
+/// degenerate data (writing a value that may be there, transposing a symmetric matrix, …)
+fn eq_lines(g: &mut Gen, s: Size, value: u64) {
+    let ops = vec![
+        "retain_mut rows=all cols=all".to_string(),
+        "map_mut 0".to_string(),
+        "map_mut 1".to_string(),
+        "transpose_mut".to_string(),
+        "transpose".to_string(),
+        format!("set 0 0 {} via=set", value),
+        format!("set {} {} {} via=set", s.r - 1, s.c - 1, value),
+        format!("set {} 0 {} via=set", s.r, value),
+        format!("insert_row 0 {}", value),
+        format!("remove_column {}", s.c - 1),
+        format!("fill {}", value),
+        format!("retain rows=not(single(0)) cols=all"),
+        "map_mut 5 panic_at=0".to_string(),
+        "map_mut_with_index 0".to_string(),
+    ];
+    for op in ops {
+        g.op(format!("eq_after {}", op));
+        g.count("query.eq_after");
+    }
+}
+
 /// The slice shapes of the exhaustive alphabet, instantiated at dimension length `n`.
 fn slice_shapes(n: usize) -> Vec<Sl> {
     vec![
@@ -285,6 +375,9 @@ fn slice_shapes(n: usize) -> Vec<Sl> {
         Sl::Not(Box::new(Sl::Single(0))),
         Sl::And(Box::new(Sl::Range(0, 2)), Box::new(Sl::Not(Box::new(Sl::Single(1))))),
         Sl::Or(Box::new(Sl::Single(0)), Box::new(Sl::Single(n.saturating_sub(1)))),
+        // every other index
+        Sl::Or(Box::new(Sl::Single(0)), Box::new(Sl::Or(Box::new(Sl::Single(2)), Box::new(Sl::Single(4))))),
+        Sl::Not(Box::new(Sl::Or(Box::new(Sl::Single(0)), Box::new(Sl::Single(2))))),
     ]
 }
 
@@ -410,6 +503,8 @@ fn gen_exhaustive(g: &mut Gen) {
             g.count("exhaustive.case.len1");
             g.op("scalar".to_string());
             g.op("try_into_scalar".to_string());
+            getter_lines(g, s0, true);
+            eq_lines(g, s0, 1);
             let a1 = alphabet(s0, &mut counter);
             for op in &a1 {
                 count_op(g, op, s0, "exh");
@@ -609,6 +704,9 @@ fn gen_random(g: &mut Gen) {
             if !op.valid(s) {
                 seen_invalid = true;
             }
+            if g.rng.chance(1, 10) {
+                getter_lines(g, s, false);
+            }
             if g.rng.chance(1, 20) {
                 let q = if g.rng.chance(1, 2) { "scalar" } else { "try_into_scalar" };
                 g.op(q.to_string());
@@ -794,6 +892,7 @@ fn gen_large(g: &mut Gen) {
                 g.op(op.line());
                 s = op.after(s);
             }
+            getter_lines(g, s, true);
             // grow back and go on at random without the shrinking bias of `random_op`
             for _ in 0..12 {
                 let op = match g.rng.below(8) {
@@ -821,7 +920,225 @@ fn gen_large(g: &mut Gen) {
     }
 }
 
+/// User code panicking on its k-th call, for every k up to one beyond the number of calls, on
+/// sizes 1x1..3x3 (+4x4), followed by a full use of the survivor (the observation of every line:
+/// size, storage length, every element, both iterators) and further resizing.
+fn gen_panicking_user_code(g: &mut Gen) {
+    let mut counter = 50u64;
+    let mut sizes: Vec<(usize, usize)> = vec![];
+    for r in 1..=3usize {
+        for c in 1..=3usize {
+            sizes.push((r, c));
+        }
+    }
+    sizes.push((4, 4));
+    let mut k = 0usize;
+    for (r, c) in sizes {
+        let s0 = Size { r, c };
+        let mut bases: Vec<GOp> = vec![
+            GOp::MapMut(1000),
+            GOp::MapMutWithIndex(100),
+            GOp::Map(2000),
+            GOp::MapWithIndex(300),
+        ];
+        for n in [c.saturating_sub(1), c, c + 2] {
+            bases.push(GOp::InsertRowWith(r, fresh(&mut counter, n)));
+        }
+        for n in [r.saturating_sub(1), r, r + 2] {
+            bases.push(GOp::InsertColumnWith(0, fresh(&mut counter, n)));
+        }
+        bases.push(GOp::InsertRowWith(r + 1, fresh(&mut counter, c)));
+        for base in bases {
+            let calls = base.user_calls(s0);
+            for j in 0..=calls + 1 {
+                k += 1;
+                let l = start_line(g, r, c, k % 3);
+                g.op(l);
+                let op = GOp::Panicking(Box::new(base.clone()), j);
+                count_op(g, &op, s0, "upanic");
+                g.count(&format!(
+                    "upanic.{}.{}",
+                    base.name(),
+                    if j < calls { "user_code_panics" } else { "user_code_survives" }
+                ));
+                g.op(op.line());
+                let mut s = op.after(s0);
+                if matches!(base, GOp::MapMut(_) | GOp::MapMutWithIndex(_)) {
+                    // which cells a panicking in-place map got to is not the property's business
+                    g.op(GOp::Resync(3000 + j as u64, None).line());
+                }
+                // the same operation again without the panic, then resizing of the survivor
+                g.op(base.line());
+                s = base.after(s);
+                for follow in [GOp::TransposeMut, GOp::RemoveRow(0), GOp::InsertColumn(0, 9)] {
+                    g.op(follow.line());
+                    s = follow.after(s);
+                }
+                let op = random_op(g, s, &mut counter);
+                g.op(op.line());
+            }
+        }
+    }
+}
+
+/// the same operation with every inserted value replaced by `v` (degenerate data)
+fn with_values(op: &GOp, v: u64) -> GOp {
+    match op {
+        GOp::InsertRow(p, _) => GOp::InsertRow(*p, v),
+        GOp::InsertRowWith(p, vs) => GOp::InsertRowWith(*p, vec![v; vs.len()]),
+        GOp::InsertColumn(p, _) => GOp::InsertColumn(*p, v),
+        GOp::InsertColumnWith(p, vs) => GOp::InsertColumnWith(*p, vec![v; vs.len()]),
+        GOp::Set(r, c, _, via) => GOp::Set(*r, *c, v, *via),
+        GOp::Panicking(op, j) => GOp::Panicking(Box::new(with_values(op, v)), *j),
+        GOp::Resync(b, _) => GOp::Resync(*b, Some(v)),
+        other => other.clone(),
+    }
+}
+
+fn flat_line(r: usize, c: usize, f: impl Fn(usize, usize) -> u64) -> String {
+    let vals: Vec<String> = (0..r * c).map(|k| f(k / c, k % c).to_string()).collect();
+    format!("@ flat {} {} {}", r, c, vals.join(","))
+}
+
+/// Degenerate data: the same operation script is run on a matrix of distinct elements with
+/// distinct inserted values (where a misplaced row or column shows by value) and on matrices
+/// whose elements are all zero / all equal to the inserted value / made of equal rows / of equal
+/// columns / alternating, with all inserted values equal — there only the sizes, the storage
+/// length and the pattern of the elements can differ, and changes keyed on an element being
+/// zero, equal to its neighbour or equal to the inserted value fire.
+fn gen_degenerate(g: &mut Gen) {
+    let scripts = if g.thorough { 120 } else { 36 };
+    for i in 0..scripts {
+        let r = g.rng.range(1, 4);
+        let c = g.rng.range(1, 4);
+        let s0 = Size { r, c };
+        // one script of positions / shapes, generated once
+        let mut counter = 50u64;
+        let mut s = s0;
+        let mut script: Vec<GOp> = vec![];
+        let len = g.rng.range(4, 14);
+        for _ in 0..len {
+            let op = if g.rng.chance(1, 8) {
+                let base = match g.rng.below(4) {
+                    0 => GOp::MapMut(0),
+                    1 => GOp::MapMutWithIndex(0),
+                    2 => GOp::InsertRowWith(g.rng.below(s.r + 1), fresh(&mut counter, s.c)),
+                    _ => GOp::InsertColumnWith(g.rng.below(s.c + 1), fresh(&mut counter, s.r)),
+                };
+                let calls = base.user_calls(s);
+                GOp::Panicking(Box::new(base), g.rng.below(calls + 2))
+            } else {
+                random_op(g, s, &mut counter)
+            };
+            s = op.after(s);
+            if let GOp::Panicking(inner, _) = &op {
+                if matches!(**inner, GOp::MapMut(_) | GOp::MapMutWithIndex(_)) {
+                    script.push(op.clone());
+                    script.push(GOp::Resync(6000, None));
+                    continue;
+                }
+            }
+            // sometimes the same operation twice
+            if g.rng.chance(1, 5) {
+                script.push(op.clone());
+                s = op.after(s);
+                g.count("degenerate.same_operation_twice");
+            }
+            script.push(op);
+        }
+        let starts: Vec<(&str, String, Option<u64>)> = vec![
+            ("distinct", format!("@ new {}x{} via=flat", r, c), None),
+            ("all_zero", flat_line(r, c, |_, _| 0), Some(0)),
+            ("all_equal_to_inserted", flat_line(r, c, |_, _| 7), Some(7)),
+            ("zero_with_inserted_nonzero", format!("@ empty {} {} 0", r, c), Some(7)),
+            ("equal_rows", flat_line(r, c, |_, j| j as u64 + 1), Some(1)),
+            ("equal_columns", flat_line(r, c, |i, _| i as u64 + 1), Some(1)),
+            ("alternating", flat_line(r, c, |i, j| ((i + j) % 2) as u64), Some(i as u64 % 2)),
+        ];
+        for (name, start, value) in starts {
+            g.op(start);
+            g.count(&format!("degenerate.start.{}", name));
+            let mut s = s0;
+            for op in &script {
+                let op = match value {
+                    Some(v) => with_values(op, v),
+                    None => op.clone(),
+                };
+                count_op(g, &op, s, "degen");
+                g.op(op.line());
+                s = op.after(s);
+            }
+            getter_lines(g, s, true);
+            eq_lines(g, s, value.unwrap_or(1));
+        }
+    }
+}
+
+/// Arguments that must change nothing, and operations that undo each other, on matrices with
+/// known contents (elements 1..=R*C): retain-all, the identity maps, writing the value that is
+/// there, remove-then-reinsert of the same row / column, insert-then-remove, double transposition.
+fn gen_noops(g: &mut Gen) {
+    for r in 1..=4usize {
+        for c in 1..=4usize {
+            let elem = |i: usize, j: usize| (i * c + j + 1) as u64;
+            let mut k = r * 7 + c;
+            let mut case = |g: &mut Gen, lines: Vec<String>| {
+                k += 1;
+                let l = start_line(g, r, c, k % 3);
+                g.op(l);
+                g.count("noop.case");
+                for l in lines {
+                    g.op(l);
+                }
+                // the matrix must be what it was: probed by a last operation that shows everything
+                g.op("map_mut 0".to_string());
+            };
+            case(g, vec![
+                "retain_mut rows=all cols=all".into(),
+                format!("retain rows=range(0,{}) cols=not(none)", r),
+                "retain_mut rows=or(all,none) cols=and(all,all)".into(),
+                "map_mut 0".into(),
+                "map_mut_with_index 0".into(),
+                "map 0".into(),
+                "map_with_index 0".into(),
+            ]);
+            case(g, vec!["transpose_mut".into(), "transpose_mut".into(), "transpose".into(), "transpose".into(),
+                "transpose".into(), "transpose_mut".into()]);
+            for i in 0..r {
+                for j in 0..c {
+                    if (i + j) % 2 == 0 {
+                        case(g, vec![format!("set {} {} {} via=set", i, j, elem(i, j)),
+                            format!("set {} {} {} via=get_reference_mut", i, j, elem(i, j))]);
+                    }
+                }
+            }
+            for i in 0..r {
+                let row: Vec<u64> = (0..c).map(|j| elem(i, j)).collect();
+                // remove then re-insert the same row (needs two rows), insert then remove
+                case(g, vec![
+                    format!("remove_row {}", i),
+                    format!("insert_row_with {} {} via={}", i, show_vals(&row), iter_kind_for(i, &row)),
+                    format!("insert_row {} 77", i),
+                    format!("remove_row {}", i),
+                ]);
+            }
+            for j in 0..c {
+                let col: Vec<u64> = (0..r).map(|i| elem(i, j)).collect();
+                case(g, vec![
+                    format!("remove_column {}", j),
+                    format!("insert_column_with {} {} via={}", j, show_vals(&col), iter_kind_for(j, &col)),
+                    format!("insert_column {} 77", j),
+                    format!("remove_column {}", j),
+                ]);
+            }
+        }
+    }
+}
+
 pub fn gen(g: &mut Gen) {
+    gen_panicking_user_code(g);
+    gen_degenerate(g);
+    gen_noops(g);
     gen_iterator_kinds(g);
     gen_large(g);
     gen_constructor_table(g);
@@ -915,6 +1232,47 @@ fn answer(outcome: Result<(), PanicKind>, m: &Matrix<u64>) -> String {
     match outcome {
         Ok(()) => format!("ok {} ## len={}", obs, len),
         Err(k) => format!("panic {} ## len={} kind={}", obs, len, k.as_str()),
+    }
+}
+
+/// Counts the calls of a user closure (`impl Fn`, hence the `Cell`) and panics on call `at`.
+struct CallCounter {
+    calls: std::cell::Cell<usize>,
+    at: usize,
+}
+
+impl CallCounter {
+    fn new(at: usize) -> CallCounter {
+        CallCounter { calls: std::cell::Cell::new(0), at }
+    }
+    fn tick(&self) {
+        let c = self.calls.get();
+        self.calls.set(c + 1);
+        if c == self.at {
+            panic!("the user closure panics on call {}", c);
+        }
+    }
+}
+
+/// An iterator adaptor whose `next` panics on call `at` (0-based); the size hint is the inner one.
+struct PanicAt<I> {
+    inner: I,
+    calls: usize,
+    at: usize,
+}
+
+impl<I: Iterator<Item = u64>> Iterator for PanicAt<I> {
+    type Item = u64;
+    fn next(&mut self) -> Option<u64> {
+        let c = self.calls;
+        self.calls += 1;
+        if c == self.at {
+            panic!("the user iterator panics on call {} of next", c);
+        }
+        self.inner.next()
+    }
+    fn size_hint(&self) -> (usize, Option<usize>) {
+        self.inner.size_hint()
     }
 }
 
@@ -1029,6 +1387,9 @@ macro_rules! with_values_iter {
 pub(crate) fn apply(m: &mut Matrix<u64>, toks: &[&str]) -> Option<Result<(), PanicKind>> {
     let us = |i: usize| toks[i].parse::<usize>().expect("usize");
     let val = |i: usize| toks[i].parse::<u64>().expect("u64");
+    // `panic_at=<j>`: the user code of this operation (closure / iterator `next`) panics on its
+    // j-th call (0-based); never when absent
+    let panic_at: usize = opt_arg("panic_at", toks).map(|t| t.parse().expect("panic_at")).unwrap_or(usize::MAX);
     Some(match toks[0] {
         "insert_row" => {
             let (p, v) = (us(1), val(2));
@@ -1037,7 +1398,10 @@ pub(crate) fn apply(m: &mut Matrix<u64>, toks: &[&str]) -> Option<Result<(), Pan
         "insert_row_with" => {
             let (p, vs) = (us(1), parse_vals(toks[2]));
             let kind = opt_arg("via", toks).unwrap_or("vec");
-            with_values_iter!(kind, vs, |it| catch(|| m.insert_row_with(p, it)))
+            with_values_iter!(kind, vs, |it| {
+                let it = PanicAt { inner: it, calls: 0, at: panic_at };
+                catch(|| m.insert_row_with(p, it))
+            })
         }
         "insert_column" => {
             let (p, v) = (us(1), val(2));
@@ -1046,7 +1410,10 @@ pub(crate) fn apply(m: &mut Matrix<u64>, toks: &[&str]) -> Option<Result<(), Pan
         "insert_column_with" => {
             let (p, vs) = (us(1), parse_vals(toks[2]));
             let kind = opt_arg("via", toks).unwrap_or("vec");
-            with_values_iter!(kind, vs, |it| catch(|| m.insert_column_with(p, it)))
+            with_values_iter!(kind, vs, |it| {
+                let it = PanicAt { inner: it, calls: 0, at: panic_at };
+                catch(|| m.insert_column_with(p, it))
+            })
         }
         "remove_row" => {
             let p = us(1);
@@ -1098,15 +1465,41 @@ pub(crate) fn apply(m: &mut Matrix<u64>, toks: &[&str]) -> Option<Result<(), Pan
         }
         "map_mut" => {
             let k = val(1);
-            catch(|| m.map_mut(|x| x + k))
+            let calls = CallCounter::new(panic_at);
+            catch(|| {
+                m.map_mut(|x| {
+                    calls.tick();
+                    x + k
+                })
+            })
         }
         "map_mut_with_index" => {
             let k = val(1);
-            catch(|| m.map_mut_with_index(|x, i, j| x + k * (i as u64 + 1) + j as u64))
+            let calls = CallCounter::new(panic_at);
+            catch(|| {
+                m.map_mut_with_index(|x, i, j| {
+                    calls.tick();
+                    x + k * (i as u64 + 1) + j as u64
+                })
+            })
+        }
+        "renumber" => {
+            let b = val(1);
+            catch(|| m.map_mut_with_index(|_, i, j| b + 100 * i as u64 + j as u64))
+        }
+        "fill" => {
+            let v = val(1);
+            catch(|| m.map_mut(|_| v))
         }
         "map" => {
             let k = val(1);
-            match catch(|| m.map(|x| x + k)) {
+            let calls = CallCounter::new(panic_at);
+            match catch(|| {
+                m.map(|x| {
+                    calls.tick();
+                    x + k
+                })
+            }) {
                 Ok(r) => {
                     *m = r;
                     Ok(())
@@ -1116,7 +1509,13 @@ pub(crate) fn apply(m: &mut Matrix<u64>, toks: &[&str]) -> Option<Result<(), Pan
         }
         "map_with_index" => {
             let k = val(1);
-            match catch(|| m.map_with_index(|x, i, j| x + k * (i as u64 + 1) + j as u64)) {
+            let calls = CallCounter::new(panic_at);
+            match catch(|| {
+                m.map_with_index(|x, i, j| {
+                    calls.tick();
+                    x + k * (i as u64 + 1) + j as u64
+                })
+            }) {
                 Ok(r) => {
                     *m = r;
                     Ok(())
@@ -1233,6 +1632,26 @@ impl Runner {
                 Err(k) => format!("panic ## kind={}", k.as_str()),
             };
         }
+        if toks[0] == "row_iter" || toks[0] == "column_iter" || toks[0] == "diagonal_iter" {
+            let reference = opt_arg("via", toks) == Some("reference_iter");
+            let which = toks[0];
+            let arg: usize = if which == "diagonal_iter" { 0 } else { toks[1].parse().expect("usize") };
+            let m: &Matrix<u64> = m;
+            let got = catch(|| -> Vec<u64> {
+                match (which, reference) {
+                    ("row_iter", false) => m.row_iter(arg).collect(),
+                    ("row_iter", true) => m.row_reference_iter(arg).cloned().collect(),
+                    ("column_iter", false) => m.column_iter(arg).collect(),
+                    ("column_iter", true) => m.column_reference_iter(arg).cloned().collect(),
+                    (_, false) => m.diagonal_iter().collect(),
+                    (_, true) => m.diagonal_reference_iter().cloned().collect(),
+                }
+            });
+            return match got {
+                Ok(v) => format!("vals={}", show_vals(&v)),
+                Err(k) => format!("panic ## kind={}", k.as_str()),
+            };
+        }
         if toks[0] == "try_into_scalar" {
             return match catch(|| m.clone()) {
                 Ok(copy) => match catch(|| copy.try_into_scalar()) {
@@ -1241,6 +1660,90 @@ impl Runner {
                     Err(k) => format!("panic ## kind={}", k.as_str()),
                 },
                 Err(k) => format!("clone-panicked {}", k.as_str()),
+            };
+        }
+        if toks[0] == "eq_after" {
+            let mut copy = match catch(|| m.clone()) {
+                Ok(c) => c,
+                Err(k) => return format!("clone-panicked {}", k.as_str()),
+            };
+            return match apply(&mut copy, &toks[1..]) {
+                Some(_) => {
+                    let (a, b) = (*m == copy, copy == *m);
+                    if a == b {
+                        format!("eq={}", a)
+                    } else {
+                        format!("eq=asymmetric({},{})", a, b)
+                    }
+                }
+                None => "bad-op".into(),
+            };
+        }
+        // an in-place map whose closure may panic: the property only demands that the survivor
+        // keeps its size, a consistent storage, and old-or-mapped cells; the pattern is aux
+        let inner: &[&str] = if toks[0] == "try" { &toks[1..] } else { toks };
+        if (inner[0] == "map_mut" || inner[0] == "map_mut_with_index") && opt_arg("panic_at", inner).is_some() {
+            let k: u64 = inner[1].parse().expect("u64");
+            let with_index = inner[0] == "map_mut_with_index";
+            let (rows, cols) = m.size();
+            let old: Vec<Vec<Option<u64>>> =
+                (0..rows).map(|i| (0..cols).map(|j| catch(|| m.get(i, j)).ok()).collect()).collect();
+            let mut copy;
+            let target: &mut Matrix<u64> = if toks[0] == "try" {
+                copy = match catch(|| m.clone()) {
+                    Ok(c) => c,
+                    Err(k) => return format!("clone-panicked {}", k.as_str()),
+                };
+                &mut copy
+            } else {
+                m
+            };
+            let outcome = apply(target, inner).expect("map op");
+            return match outcome {
+                Ok(()) => answer(Ok(()), target),
+                Err(kind) => {
+                    let (r2, c2) = target.size();
+                    let len = storage_len(target);
+                    let mut bad = vec![];
+                    let mut pattern: Vec<String> = vec![];
+                    for i in 0..rows.min(r2) {
+                        let mut row = String::new();
+                        for j in 0..cols.min(c2) {
+                            let f = |x: u64| if with_index { x + k * (i as u64 + 1) + j as u64 } else { x + k };
+                            let mark = match (old[i][j], catch(|| target.get(i, j))) {
+                                (Some(o), Ok(n)) if n == o && n == f(o) => '=',
+                                (Some(o), Ok(n)) if n == o => 'o',
+                                (Some(o), Ok(n)) if n == f(o) => 'm',
+                                (_, Ok(n)) => {
+                                    bad.push(format!("({},{})={}", i, j, n));
+                                    '?'
+                                }
+                                (_, Err(e)) => {
+                                    bad.push(format!("({},{})=!{}", i, j, e.as_str()));
+                                    '?'
+                                }
+                            };
+                            row.push(mark);
+                        }
+                        pattern.push(row);
+                    }
+                    let storage = if (r2, c2) == (rows, cols) && Some(len) == rows.checked_mul(cols) {
+                        "consistent".to_string()
+                    } else {
+                        format!("{}-elements-for-{}x{}-was-{}x{}", len, r2, c2, rows, cols)
+                    };
+                    let cells = if bad.is_empty() { "old-or-mapped".to_string() } else { format!("bad:{}", bad.join(",")) };
+                    format!(
+                        "panic {}x{} storage={} cells={} ## len={} kind={} pattern={}",
+                        r2,
+                        c2,
+                        storage,
+                        cells,
+                        len,
+                        kind.as_str(),
+                        pattern.join(";")
+                    )
+                }
             };
         }
         if toks[0] == "try" {
